@@ -92,6 +92,9 @@ RELOAD = {
     "reload:private:public-while-customised": ("private", 1, "other"),
     "reload:private:second-private-while-customised": ("private", 1, "other2"),
     "reload:public:private-while-customised": ("public", 1, "other"),
+    # a private table created and initialised (stock mass.init / density.init) WHILE the public table carries the
+    # user's values: it is served from the embedded tables, not from whatever the public table holds at that moment
+    "reload:public:new-private-while-customised": ("public", 1, "other2"),
     "reload:public:private-after-reload": ("public", 3, "other"),
 }
 CUSTOM_CONFIGS = set()                                                   # kind 'custom' cases only
@@ -158,8 +161,8 @@ def reload_env(config):
             t[z][a]._abundance = v
         st_["scale"] = scale
         st_["stage"] = 1
-        if XS[x][0] == "private":
-            t2 = subtable.new("c06-reload-second-" + x)     # initialised while the first is customised
+        if True:
+            t2 = subtable.new("c06-reload-second-" + x)     # initialised while the first (private OR public) is customised
             mass.init(t2)
             density.init(t2)
             st_["other2"] = t2
@@ -1068,6 +1071,7 @@ def tasks(tier):
                           "reload:private-np:reloaded"])),
            ("sweep-public-reload", task_sweep,
             dict(configs=["reload:public:customised", "reload:public:private-while-customised",
+                          "reload:public:new-private-while-customised",
                           "reload:public:customised-after-falsy-init",
                           "reload:public:reloaded", "reload:public:private-after-reload"])),
            ("interpreter-modes-O", task_sweep,
